@@ -77,6 +77,7 @@ def oracle_csr(header, ops, groups):
         if len(rows) != 2 * n:
             return bad(k, "csr-row-dump-incomplete", "%d rows" % n)
         flat = []
+        eidx = 0
         for a in range(n):
             ts = sorted(b for (x, b) in edges if x == a)
             wr = "row " + " ".join(map(str, [a] + ts))
@@ -86,7 +87,10 @@ def oracle_csr(header, ops, groups):
             if rows[2 * a + 1] != ww:
                 return bad(k, "csr-weights-wrong", ww)
             for t in ts:
-                flat += [len(flat) // 4, a, t, edges[(a, t)]]
+                # an undirected edge is yielded only from its smaller endpoint; the index counts every stored entry
+                if directed or t >= a:
+                    flat += [eidx, a, t, edges[(a, t)]]
+                eidx += 1
         if lines[2] != ("erefs " + " ".join(map(str, flat))).strip():
             return bad(k, "csr-edge-references-disagree-with-rows")
         return None
